@@ -11,8 +11,9 @@
 -/
 import LispModel.Eval
 import LispModel.Proofs.EvalTry
+import LispModel.Proofs.EvalTail
 namespace LispModel.Props.C03
-open LispModel LispModel.Core LispModel.Proofs.EvalCancel LispModel.Proofs.EvalTry
+open LispModel LispModel.Core LispModel.Proofs.EvalCancel LispModel.Proofs.EvalTry LispModel.Proofs.EvalTail
 
 /-- The `try` form: one poll, operand splitting, then the three stages. -/
 theorem try_form_unfolds (st : State) (hl : Live st) (env : Nat) (hm : NotMacro st env "try")
@@ -45,9 +46,8 @@ theorem try_value_is_body_value (F : Nat) (st : State) (env : Nat) (parts : TryP
     (s1 : State) (hbody : doForms F st env parts.body 0 false d = (.ok v, s1)) :
     handlerStage F parts env d (doForms F st env parts.body 0 false d) = (.ok v, s1) ∧
     tryArm F st env parts d = finallyStage F parts env d (.ok v, s1) ∧
-    ((tryArm F st env parts d).1 = .ok v ∨ (tryArm F st env parts d).1 = .oof) := by
-  refine ⟨by rw [hbody]; rfl, by rw [tryArm, hbody]; rfl, ?_⟩
-  rw [tryArm, hbody]; exact finallyStage_result F parts env d (.ok v, s1)
+    ((tryArm F st env parts d).1 = .ok v ∨ (tryArm F st env parts d).1 = .oof) :=
+  tryArm_body_ok F st env parts d v s1 hbody
 
 /-- …or the value of the catch handler if the body threw, returned as a value and not evaluated again: when
     the body returns the error `e` and the catch variable binds, the result of the handler stage IS the
@@ -62,6 +62,17 @@ theorem try_handler_value_returned_not_reevaluated (F : Nat) (parts : TryParts) 
         handler 0 false d :=
   handlerStage_caught F parts env d e s1 hd hb (bindParams_one hx p _)
 
+/-- DEVIATION from "delivered unchanged to the nearest enclosing catch clause": a catch clause whose variable
+    does not bind — `(catch & …)`, or a non-symbol such as `(catch 1 …)` — does not run its handler, and the
+    try form returns the binder's error ("'&' must be followed by a parameter name" / "cannot use value as
+    parameter name") INSTEAD of the thrown one: the thrown value is lost.  (Hence the side condition
+    `x ≠ "&"` on the catch variable in the laws above.) -/
+theorem catch_binder_error_replaces_thrown_value (F : Nat) (parts : TryParts) (env d : Nat) (e : Err) (s1 : State)
+    (handler : List Val) (b : Val) (hd : parts.catchDo = some handler) (hb : parts.catchBind = some b)
+    (hbad : (∃ p, b = .sym "&" p) ∨ (∀ s q, b ≠ .sym s q)) :
+    ∃ msg, handlerStage F parts env d (.err e, s1) = (.err (.lisp (.goerr msg) none), s1) :=
+  handlerStage_bad_binder F parts env d e s1 handler b hd hb hbad
+
 /-- The catch variable is visible only inside the handler: creating the handler scope leaves every existing
     scope — in particular the scope `env` of the try form — literally untouched (the store only gets one
     more entry), and the finally forms are evaluated in `env`, not in the handler scope (see
@@ -69,9 +80,15 @@ theorem try_handler_value_returned_not_reevaluated (F : Nat) (parts : TryParts) 
 theorem catch_var_scoped_to_handler (s1 : State) (env : Nat) (data : List (String × Val)) (i : Nat)
     (hi : i < s1.scopes.size) :
     (s1.newScope env data).1.scopes[i]? = s1.scopes[i]? ∧ (s1.newScope env data).2 = s1.scopes.size ∧
-    (s1.newScope env data).2 ≠ i := by
-  refine ⟨?_, rfl, Nat.ne_of_gt hi⟩
-  simp [State.newScope, Array.getElem?_push, Nat.ne_of_lt hi]
+    (s1.newScope env data).2 ≠ i :=
+  newScope_keeps_scopes s1 env data i hi
+
+/-- …hence (well-formed scope store) what the scope `env` of the try form — or any existing scope — sees is
+    unchanged by the binding of the catch variable, for every name including the catch variable itself -/
+theorem catch_var_not_visible_in_try_scope (s1 : State) (hw : ScopesWF s1) (env : Nat)
+    (data : List (String × Val)) (id : Nat) (hid : id < s1.scopes.size) (k : String) :
+    (s1.newScope env data).1.get id k = s1.get id k :=
+  get_newScope_old hw hid env data k
 
 /-- The finally body runs exactly once, after body and handler, on every path.  With a finally clause `fin`,
     the form's result on the state `s` left by the body (normal / uncaught path) or by the handler (caught path,
@@ -108,26 +125,29 @@ theorem finally_cannot_change_outcome (F : Nat) (parts : TryParts) (env d : Nat)
     or the Go caller), with the same payload and position. -/
 theorem uncaught_reaches_host (F : Nat) (st : State) (env : Nat) (parts : TryParts) (d : Nat) (e : Err) (s1 : State)
     (hbody : doForms F st env parts.body 0 false d = (.err e, s1)) (hc : parts.catchDo = none) :
-    (tryArm F st env parts d).1 = .err e ∨ (tryArm F st env parts d).1 = .oof := by
-  rw [tryArm, hbody, handlerStage_uncaught F parts env d e s1 hc]; exact finallyStage_result F parts env d _
+    (tryArm F st env parts d).1 = .err e ∨ (tryArm F st env parts d).1 = .oof :=
+  tryArm_uncaught_result F st env parts d e s1 hbody hc
 
-/-- `(throw x)`: the value `v` of `x` (any value that is not a Go error object) is the payload of the returned
+/-- `(throw x)`: the value `v` of `x` (any value, a Go error object included) is the payload of the returned
     error, unchanged; the error is positioned at the throw form. -/
 theorem thrown_value_unchanged (st : State) (hs : st.stepper = none) (hc : st.cancelAt = none) (env : Nat)
     (hthrow : st.get env "throw" = some (.builtin "throw")) (F : Nat) (p : Option Pos) (x : Val) (pos : Option Pos)
     (d : Nat) (v : Val) (s1 : State)
-    (hx : eval (F + 2) (tick (tick st)) env x (d + 1) = (.ok v, s1)) (hv : ∀ m, v ≠ .goerr m) :
+    (hx : eval (F + 2) (tick (tick st)) env x (d + 1) = (.ok v, s1)) :
     evalLoop (F + 5) st env (.list [.sym "throw" p, x] pos) d = (.err (.lisp v pos), s1) ∧
     caughtValue (.lisp v pos) = v :=
-  ⟨throw_delivers hs hc hthrow F p x pos d v s1 hx hv, rfl⟩
+  ⟨throw_delivers hs hc hthrow F p x pos d v s1 hx, rfl⟩
 
 /-- Re-wrapping by `NewLispError` (done by the application arm for every error coming out of a Go builtin,
     including the callbacks of `map`, `apply`, `swap!`, `update`) never alters the payload of a lisp error;
     a plain Go error becomes the Go error object itself (`Val.goerr msg`, still reachable by `errors.Is`),
-    NOT its message string. -/
+    NOT its message string — whereas a plain Go error that reaches `catch` WITHOUT having been re-wrapped (those
+    the evaluator itself returns bare: "GetSlice called on non-sequence", "empty application", …) is bound as its
+    message string. -/
 theorem payload_survives_rewrapping (v : Val) (pos : Option Pos) (msg : String) (c : Val) :
-    caughtValue (newLispError (.lisp v pos) c) = v ∧ caughtValue (newLispError (.plain msg) c) = .goerr msg :=
-  ⟨caughtValue_newLispError_lisp v pos c, caughtValue_newLispError_plain msg c⟩
+    caughtValue (newLispError (.lisp v pos) c) = v ∧ caughtValue (newLispError (.plain msg) c) = .goerr msg ∧
+    caughtValue (.plain msg) = .str msg :=
+  ⟨caughtValue_newLispError_lisp v pos c, caughtValue_newLispError_plain msg c, rfl⟩
 
 /-- Through any depth of calls: an error returned by the element loop of `eval_ast` (operands of a call,
     elements of a vector, forms of a `do` / fn body / handler) is, unchanged, the error some element returned. -/
@@ -157,7 +177,18 @@ theorem error_propagates_through_calls (F : Nat) (st : State) (hs : st.stepper =
       eval F (st.newScope fenv data).1 (st.newScope fenv data).2 body (d + 1) :=
   ⟨callArm_closure hs hb, apply_closure hb⟩
 
-/-- …through builtin callbacks: an error of the callback of `map`, `apply`, `swap!` comes out of the builtin
+/-- …through macro expansions: an error raised while a macro body runs comes out of `macroexpand`, and out of
+    the loop iteration that was expanding the call, unchanged. -/
+theorem error_propagates_through_macroexpansion (st : State) (hl : Live st) (F env : Nat) (s : String)
+    (p : Option Pos) (args : List Val) (pos : Option Pos) (d : Nat) (params body : Val) (fenv : Nat)
+    (mp : Option Pos) (data : List (String × Val)) (e : Err) (s1 : State)
+    (hg : (tick st).get env s = some (.fn params body fenv true mp)) (hb : bindParams params args = .ok data)
+    (h : eval F ((tick st).newScope fenv data).1 ((tick st).newScope fenv data).2 body (d + 1) = (.err e, s1)) :
+    macroexpand (F + 1) (tick st) env (.list (.sym s p :: args) pos) d = (.err e, s1) ∧
+    evalLoop (F + 2) st env (.list (.sym s p :: args) pos) d = (.err e, s1) :=
+  ⟨macroexpand_err hg hb h, evalLoop_macroexpand_err hl (macroexpand_err hg hb h)⟩
+
+/-- …through builtin callbacks: an error of the callback of `map`, `apply`, `swap!`, `update` comes out of the builtin
     unchanged (and the application arm then re-wraps it keeping the payload). -/
 theorem error_propagates_through_callbacks (F : Nat) (st : State) (f : Val) (d : Nat) (e : Err) (s1 : State) :
     (∀ s xs, seqOf? s = some xs → mapLoop F st f xs d = (.err e, s1) →
@@ -166,10 +197,13 @@ theorem error_propagates_through_callbacks (F : Nat) (st : State) (f : Val) (d :
       callBuiltin (F + 1) st "apply" [f, last] d = (.err e, s1)) ∧
     (∀ id extra, apply F st f (st.atoms.getD id .nil :: extra) d = (.err e, s1) →
       callBuiltin (F + 1) st "swap!" (.atom id :: f :: extra) d = (.err e, s1)) ∧
+    (∀ m k, apply F st f [(alookup k m).getD .nil] d = (.err e, s1) →
+      callBuiltin (F + 2) st "update" [.map m, .str k, f] d = (.err e, s1)) ∧
     (∀ name args ast, callBuiltin F st name args d = (.err e, s1) →
       callArm F st (.builtin name :: args) ast d = (.err (newLispError e ast), s1)) :=
   ⟨fun _ _ hx h => callBuiltin_map_err hx h, fun _ _ hx h => callBuiltin_apply_err hx h,
-   fun _ _ h => callBuiltin_swap_err h, fun _ _ _ h => callArm_builtin_err h⟩
+   fun _ _ h => callBuiltin_swap_err h, fun _ _ h => callBuiltin_update_err h,
+   fun _ _ _ h => callArm_builtin_err h⟩
 
 /-! ### non-vacuity: concrete programs on `initState` (kernel evaluation) -/
 
@@ -202,6 +236,12 @@ example :
      tl caught == [9, 2] && (caught.1 matches .ok (.int 2)) &&
      tl uncaught == [9] && (uncaught.1 matches .err (.lisp (.int 1) _)) &&
      tl rethrow == [9] && (rethrow.1 matches .err (.lisp (.int 3) _))) = true := by decide +kernel
+
+/-- the deviation above on a real program: `(try (throw 7) (catch & 1))` ⇒ an error whose payload is a Go error
+    object, not 7 -/
+example : ((eval 100 initState 0
+    (ls [sy "try", ls [sy "throw", .int 7], ls [sy "catch", sy "&", .int 1]]) 0).1
+    matches .err (.lisp (.goerr _) _)) = true := by decide +kernel
 
 /-- the catch variable is not visible after the form:
     `(do (try (throw 1) (catch e e)) e)` ⇒ error "symbol 'e' not found" -/
